@@ -98,11 +98,49 @@ sys.exit(0 if got == {exp!r} else 1)
             got = outcome(lambda: QsysResult(combo).collated_counts())
             if got != exp and len(violations) < 12:
                 fail("collated_counts", f"QsysResult({combo!r}).collated_counts()", exp, got)
+    # the assumption behind the regex model: re.match(REG_INDEX_PATTERN, s) accepts exactly
+    # name "[" digits "]" (optionally followed by one newline), groups = (name, digits), int(digits) >= 0
+    import re
+    from hugr.qsystem import result as R
+    alphabet = ["a", "A", "1", "_", "[", "]", "\n"]
+    regex_evals = 0
+    regex_bad = None
+    maxlen = 6 if tier == "quick" else 7
+
+    def grammar(s):
+        t = s[:-1] if s.endswith("\n") else s
+        if not t.endswith("]") or "[" not in t:
+            return None
+        name, _, rest = t.partition("[")
+        digits = rest[:-1]
+        if not name or not ("a" <= name[0] <= "z") or not all(c.isalnum() or c == "_" for c in name) or not name.isascii():
+            return None
+        if not digits or not all(c in "0123456789" for c in digits):
+            return None
+        return name, digits
+    for n in range(0, maxlen + 1):
+        for tup in itertools.product(alphabet, repeat=n):
+            s_ = "".join(tup)
+            regex_evals += 1
+            m = re.match(R.REG_INDEX_PATTERN, s_)
+            g = grammar(s_)
+            got = m.groups() if m else None
+            if got != g or (m and int(m.group(2)) < 0):
+                regex_bad = (s_, got, g)
+                break
+        if regex_bad:
+            break
+    if R.REG_INDEX_PATTERN.pattern != S.PATTERN:
+        regex_bad = ("pattern literal", R.REG_INDEX_PATTERN.pattern, S.PATTERN)
+    if regex_bad:
+        fail("tag grammar (regex assumption)", f"__import__('re').match(__import__('hugr.qsystem.result', fromlist=['x']).REG_INDEX_PATTERN, {regex_bad[0]!r}) and __import__('re').match(__import__('hugr.qsystem.result', fromlist=['x']).REG_INDEX_PATTERN, {regex_bad[0]!r}).groups()", ("ok", regex_bad[2]), ("ok", regex_bad[1]))
+    evaluations += regex_evals
     emit({
         "name": "bounded.c19",
         "kind": "exhaustive small scope against the statement's replay oracle",
         "bound": f"shots of up to {L} entries over tags {tags} x values {vals} (quick: length-3 shots on register a only); results of up to {3 if tier == 'thorough' else 2} shots from a pool of {len(shots_pool)} x 4 flag settings",
         "exhaustive": True,
+        "regex_assumption_check": f"{regex_evals} strings over {alphabet!r} up to length {maxlen}: re.match agrees with the grammar name[digits] used by the prover's axioms",
         "evaluations": evaluations,
         "distinct_nontrivial": nontrivial,
         "rule": "non-trivial = a register is written more than once in the shot, or a multi-shot result with strictness flags",
